@@ -231,3 +231,17 @@ def run(F, rep):
     rep.check(bool(wl) and 'idList.count(id) != 0' in render(role(wl[0], 'cond')), 'C13.B1', 'utilities makeUniqueId|collision-loop', um.where(), 'no loop over idList.count(id)', 'advances until the id is unused')
     wl = [w for w in gen.walk() if w.get('k') == 'While']
     rep.check(bool(wl) and 'mIdList.count(id) != 0' in render(role(wl[0], 'cond')), 'C13.B1', 'AnnotatorImpl::makeUniqueId|collision-loop', gen.where(), 'no loop over mIdList.count(id)', 'advances until the id is unused')
+
+    # ------------------------------------------------------------------ X: indexed traversals
+    rep.rule('C13.X1', 'in annotator.cpp every child read inside an index loop (i < owner->kindCount()) is read with that loop\'s own index: with another index the hash / id list is built from the wrong child, '
+                       'an edited id goes unnoticed and is handed out a second time')
+    from engines import indexed_child_accesses
+    n_x = 0
+    for g in F.funcs.values():
+        if not g.file.endswith(('/annotator.cpp',)) and g.name not in ('listIds', 'listComponentIds', 'makeUniqueId'):
+            continue
+        for loop, c, ivar, uses in indexed_child_accesses(g):
+            n_x += 1
+            rep.check(uses, 'C13.X1', '%s|%s' % (g.short.split('::')[-1], render(c)[:50]), g.where(c), '%s: inside `for (%s)` the child is read by `%s`, which does not use %s' % (g.short, render(role(loop, 'cond')), render(c)[:60], ivar), 'indexed by ' + ivar)
+    if n_x < 20:
+        raise AnalysisBroken('C13.X1: only %d indexed child accesses in annotator.cpp (40+ confirmed)' % n_x)
